@@ -14,3 +14,4 @@ import Generated.GoJtp
 import Generated.GoAnsih
 import Generated.GoView
 import Generated.GoSelect
+import Generated.GoUpdate
